@@ -28,7 +28,7 @@ def records_hook_tuple(model, f, node, g, seen=None):
     seen = seen or set()
     for c in node.calls():
         if isinstance(c.func, ast.Attribute) and c.func.attr == 'append' and ring_of(c.func.value) == 'rtc.tuples' and c.args:
-            a = c.args[0]
+            a = resolve_name(c.args[0], local_defs(f.node))
             if isinstance(a, ast.Call) and norm(a.func) in ('spy_tuple', 'SpyTuple') and any(kw.arg == 'hook' and isinstance(kw.value, ast.Constant) and kw.value.value is True for kw in a.keywords):
                 return True
         if isinstance(c.func, ast.Attribute) and dotted(c.func.value) == f.params[0] and f.owner_class is not None:
